@@ -3,6 +3,26 @@ import argparse, importlib, os, sys, traceback
 sys.path.insert(0, os.path.dirname(os.path.abspath(__file__)))
 import harness
 
+def rescue(mod, R, tier):
+    """the solver part of a check stopped on a code shape its harness cannot read (never a pass: the run stays INCONCLUSIVE).  The native side of the
+    check is still consulted, so that a change which also breaks the harness is reported as a VIOLATION when the real code demonstrably misbehaves."""
+    import inspect
+    if R.violations or getattr(R, '_rescued', False): return
+    R._rescued = True
+    try:
+        def call(f):
+            n = len(inspect.signature(f).parameters)
+            return f(R, tier) if n >= 2 else f(R)
+        if hasattr(mod, 'native'): call(mod.native)
+        elif hasattr(mod, 'native_validation'):
+            call(mod.native_validation)
+            if hasattr(mod, 'finalize') and len(inspect.signature(mod.finalize).parameters) == 1: mod.finalize(R)
+        elif getattr(R, 'fallback_kinds', None):
+            import menu
+            menu.run(R, set(R.fallback_kinds), 'conformance scenarios after an internal error of the solver part')
+    except Exception as e2:
+        R.notes.append('native rescue failed as well: ' + repr(e2)[:200])
+
 def main():
     ap = argparse.ArgumentParser()
     ap.add_argument('pid'); ap.add_argument('--tier', default=os.environ.get('VERIF_TIER', 'quick'), choices=['quick', 'thorough'])
@@ -22,6 +42,7 @@ def main():
     except Exception as e:
         traceback.print_exc()
         R.inconclusive.append('internal error: ' + repr(e)[:300])
+        rescue(mod, R, a.tier)
     rc = R.finish(level=getattr(mod, 'LEVEL', 'other'),
                   explanation=getattr(mod, 'EXPLANATION', 'bounded symbolic execution of the rustc MIR of the anchored repository functions (re-emitted from the working tree on this run) with contract models for calls leaving the repository; each obligation is an SMT query (z3) over all values of the symbolic inputs within the stated bounds; ' + getattr(mod, 'TITLE', '')))
     sys.exit(rc)
